@@ -92,6 +92,8 @@ func buildC14(tier string, seed int64) *Family {
 		}
 	}
 	for _, x := range []string{"//p:a", "//a", "//q:a/@p:a", "p:a/q:a", "//*[p:a]", "@p:a", "//@q:a", "p:a | q:a",
+		// a prefixed name test followed by unprefixed ones
+		"p:a/a", "//p:a/a", "p:a/@a", "ancestor::p:a/child::a", "//p:a//b", "p:a/*", "p:a/q:a/a", "@p:a/../a",
 		// NCName:* — every element (attribute) of that prefix / namespace
 		"p:*", "//p:*", "@p:*", "//q:*/@p:*", "ancestor::p:*", "//*[p:*]", "p:*/q:a", "//*[self::p:*]", "following::q:*", "//*[p:* or a]", "//*[p:* and q:a]"} {
 		for _, mp := range maps {
